@@ -32,7 +32,7 @@ func init() {
 			"shares are observed as credits of distinct accounts fed from @world (destination side) and as debits of distinct accounts allowing unbounded overdraft (source side)",
 			"whether portion vectors whose other clauses exceed one together with `remaining` are rejected is not specified; when such a split is accepted its shares are still held to the statement (no negative share, explicit portions get floor or floor+1, shares add up to the total)",
 		},
-		QuickBudget: 60 * time.Second,
+		QuickBudget: 240 * time.Second,
 		ThoroBudget: 12 * time.Minute,
 		Run:         runC06,
 	})
